@@ -193,11 +193,17 @@ ADDED = {
            'row-dependent guards evaluated); dictionary displays subscripted in the assembler have table-derived keys that are always present, or a membership test. '
            'D6: every operand fetch reads the number of bytes its mode prescribes (shared with C01.D3).',
     'C12': ' Also (D2/D6): every method of the evaluator class counts as an entry point whose defaults callers omit (dict-dispatch callees resolved); sys.path / sys.modules replaced inside a '
-           'function are restored in a finally.',
+           'function are restored in a finally. '
+           'D7: no function in the API modules mutates in place a module-level table, or a local bound to one (a lifter reversing the shared register list).',
+    'C13': ' Also (D6): visit() of every expression class rebuilds the node when any child changed, segment selector of ExprMem included (shared with C15.D2).',
     'C14': ' The template family includes the bounded left shift (count >= width of the result class gives 0; a bound taken from a narrower class is a violation) and the modular power '
-           'pow(self.arg, e, limit) with the wider-class cast; the exact power / unbounded shift are violations (the count 2^n-1 is in range).',
+           'pow(self.arg, e, limit) with the wider-class cast; the exact power / unbounded shift are violations (the count 2^n-1 is in range). '
+           'The right shift returns 0 for a count >= width only for the unsigned classes (an arithmetic shift of a negative value saturates at -1).',
     'C15': ' Also: what get_size() reads takes part in __eq__ (constants of different widths differ); evaluation-control flags the evaluator sets on freshly built nodes of a class survive '
-           'that class\'s copy().',
+           'that class\'s copy(). '
+           'Every constructor call inside copy()/visit() passes each positional field from the field of the same name (no swapped flags).',
+    'C16': ' Also: test_set is evaluated over the full product of wildcard / non-wildcard pattern, previous binding present / equal / different; an equality short cut may not bypass the joker table.',
+    'C17': ' Also (D4): every renamed row copy keeps the control-flow class of the row it copies (iretw of iret, not of the neighbouring into); rows led by 0x66 take the class of the opcode behind it.',
     'C16': ' test_set is evaluated on its five cases (success returns the bindings); the class dispatch of MatchExpr fails, never crashes, on classes without a branch.',
     'C18': ' Also (D7/D8): the render -> assemble half of the fixpoint is decided by evaluating the class methods themselves (getname/args2str/__str__, the tokeniser, check_mnemo of every '
            'class, parse_opts/str2name/parse_args, field parse/bin): exhaustively over BO x BI x AA x LK for bc/bclr/bcctr, and on boundary field vectors x every extended opcode for every '
